@@ -20,29 +20,44 @@ META = {
     "mu": dict(name="n5", mime="y0", pairs="p0", ts="none", ttl="1h", gz=False),
 }
 REPL = {2: ["001", "010", "100"], 3: ["002", "011", "110", "200"]}
+# the ways an upload enters: a multipart POST typed by the driver, operation.Upload with a plain reader / a
+# util.BytesReader, operation.UploadData; the last three also with client-side encryption
+LIB_WAYS = ["reader", "breader", "data"]
 
 
 def base_consts(**kw):
     c = {"N": 2, "Keys": {1}, "Cookies": {"c1"}, "Datas": {"e", "a"}, "MetaSet": {"m0", "m1"}, "VTtl": "", "MaxOps": 3,
          "BKF": DEVS, "AckMissing": False, "WithTransient": True, "Faults": FAULTS, "NoCountCheck": False,
-         "WithRace": False, "SkipFanoutUnchanged": False}
+         "WithRace": False, "SkipFanoutUnchanged": False, "Ways": {"mp"}, "ReEncrypt": False, "DropGzFlag": False}
     c.update(kw)
     return c
 
 
-def upload(to, k, c, d, name="n0", mime="y0", pairs="p0", ts="none", ttl="", gz=False, fsync=False, m=""):
+def upload(to, k, c, d, name="n0", mime="y0", pairs="p0", ts="none", ttl="", gz=False, fsync=False, m="", via="mp",
+           cipher=False):
     return {"ev": "upload", "to": to, "k": k, "c": c, "d": d, "name": name, "mime": mime, "pairs": pairs, "ts": ts,
-            "ttl": ttl, "gz": gz, "fsync": fsync, "m": m}
+            "ttl": ttl, "gz": gz, "fsync": fsync, "m": m, "via": via, "cipher": cipher and via != "mp"}
 
 
-def from_model(h):
+def rand_way(rng, p_lib=0.5, p_cipher=0.35):
+    """(via, cipher): the multipart POST or one of the client-library ways, those with or without encryption"""
+    if rng.random() >= p_lib:
+        return {"via": "mp", "cipher": False}
+    # now and then a reader that fails half way: doUpload must give up, nothing may be stored as a success
+    return {"via": rng.choice(LIB_WAYS) if rng.random() < 0.93 else "ereader", "cipher": rng.random() < p_cipher}
+
+
+def from_model(h, rng):
     """a TLC history of ReplImpl -> driver ops; copies left unmounted are mounted at the end, so that what they
     hold is observed"""
     ops = []
     down = set()
     for op in h:
         if op["ev"] == "upload":
-            ops.append(upload(op["to"], op["k"], op["c"], op["d"], m=op["m"], **META[op["m"]]))
+            way = op.get("way", "mp")
+            via = "mp" if way == "mp" else rng.choice(LIB_WAYS)
+            ops.append(upload(op["to"], op["k"], op["c"], op["d"], m=op["m"], via=via, cipher=way == "cipher",
+                              **META[op["m"]]))
         elif op["ev"] == "race":
             ops.append(dict(op))
         else:
@@ -77,18 +92,25 @@ def random_hists(rng, count, length):
     for _ in range(count):
         n = rng.choice([2, 2, 3])
         member, mounted, ro = set(range(n)), set(range(n)), set()
+        # a volume with a ttl of its own: no client timestamps from 2020 there - a copy whose newest needle is older
+        # than the volume's ttl is an expired volume, which its server deletes at the next heartbeat
+        vttl = "1h" if rng.random() < 0.1 else ""
         ops = []
         for _ in range(length):
             x = rng.random()
             if x < 0.55:
                 pool = sorted(mounted) if mounted and rng.random() < 0.92 else sorted(member)
                 ops.append(upload(rng.choice(pool), rng.choice([1, 1, 2]), "c2" if rng.random() < 0.06 else "c1",
-                                  rng.choice(["a", "a", "b", "j", "L", "r", "z", "Z", "p", "h", "e"]),
+                                  rng.choice(["a", "a", "b", "j", "L", "r", "z", "Z", "p", "h", "e", "a", "b", "B", "R"]),
                                   name=rng.choice(["n0", "n0", "n1", "n2", "n3", "n4", "n5", "nL", "n6"]),
                                   mime=rng.choice(["y0", "y0", "y1", "y2", "y3", "y4", "y5", "y6"]),
-                                  pairs=rng.choice(["p0", "p0", "p1", "p2"]), ts=rng.choice(["none", "none", "old", "zero"]),
+                                  pairs=rng.choice(["p0", "p0", "p1", "p2"]),
+                                  ts=rng.choice(["none", "none", "old", "zero"] if not vttl else ["none", "zero"]),
                                   ttl=rng.choice(["", "", "", "1h", "3d", "0m", "300m"]), gz=rng.random() < 0.2,
-                                  fsync=rng.random() < 0.15))
+                                  fsync=rng.random() < 0.15,
+                                  # a failing upload through the client library costs 1.4-5.6 s of retries: mostly
+                                  # where every copy is in service (the retry patterns / entry ways have the others)
+                                  **rand_way(rng, 0.45 if mounted == member and not ro else 0.12)))
             elif x < 0.60 and mounted:
                 d1, d2 = rng.sample(["a", "b", "j", "L", "r", "h"], 2)
                 ops.append({"ev": "race", "k": rng.choice([1, 1, 2]), "c": "c1", "to1": rng.choice(sorted(mounted)), "d1": d1,
@@ -124,7 +146,7 @@ def random_hists(rng, count, length):
         # end in service, so that what an unmounted copy holds is observed
         for r in sorted(member - mounted):
             ops.append({"ev": "fault", "kind": "mount", "r": r})
-        out.append((n, rng.choice(REPL[n]), "1h" if rng.random() < 0.1 else "", ops))
+        out.append((n, rng.choice(REPL[n]), vttl, ops))
     return out
 
 
@@ -142,7 +164,7 @@ def retry_patterns(rng, count):
         d = rng.choice(["a", "b", "j", "L", "r", "z", "p", "h"])
         meta = dict(name=rng.choice(["n0", "n1", "n3", "n5"]), mime=rng.choice(["y0", "y1", "y3"]),
                     pairs=rng.choice(["p0", "p1"]), ts=rng.choice(["old", "old", "none"]), ttl="",
-                    gz=rng.random() < 0.2)
+                    gz=rng.random() < 0.2, **rand_way(rng, 0.4))
         ops = []
         if rng.random() < 0.5:      # warm the location cache / have an older blob everywhere
             ops.append(upload(to, k, "c1", rng.choice(["a", "b"]), name="n5", mime="y3"))
@@ -159,6 +181,51 @@ def retry_patterns(rng, count):
             ops.append(upload(to2, k, "c1", rng.choice(["a", "b"]), **meta))
         if rng.random() < 0.4:
             ops.append({"ev": "delete", "to": to, "k": k, "c": "c1"})
+        out.append((n, rng.choice(REPL[n]), "", ops))
+    return out
+
+
+def entry_ways(rng, count):
+    """directed: the same file id written through the client library - operation.Upload with a plain reader / a
+    BytesReader, operation.UploadData, each plain or encrypted, the input as it is or already gzipped
+    (isInputCompressed), under names and mime types for which doUploadData compresses (text/*, sniffed text, a
+    compressible head of > 16 KiB without a type) or does not (image/*, an opaque type, an incompressible head) -
+    then overwritten through another way, with a replica failing in between now and then, and deleted"""
+    combos = []
+    for via in LIB_WAYS:
+        for cipher in (False, True):
+            for gz in (False, True):
+                for d, name, mime in (("a", "n1", "y0"), ("L", "n0", "y1"), ("h", "n6", "y0"), ("j", "n3", "y6"),
+                                      ("p", "n2", "y2"), ("r", "n5", "y3"), ("B", "n5", "y0"), ("R", "n0", "y0"),
+                                      ("L", "n4", "y4"), ("Z", "n1", "y0"), ("z", "n0", "y5"), ("e", "n1", "y1"),
+                                      ("b", "nL", "y3")):
+                    combos.append((via, cipher, gz, d, name, mime))
+    out = []
+    for via, cipher, gz, d, name, mime in rng.sample(combos, min(count, len(combos))):
+        n = rng.choice([2, 2, 3])
+        to = rng.randrange(n)
+        pairs, ts = rng.choice(["p0", "p1", "p2"]), rng.choice(["none", "old"])
+        ops = [upload(to, 1, "c1", d, name=name, mime=mime, pairs=pairs, ts=ts, gz=gz, via=via, cipher=cipher)]
+        ops.append(upload(rng.randrange(n), 2, "c1", rng.choice(["a", "L", "j"]), name=name, mime=mime, pairs="p1", gz=not gz,
+                          via=rng.choice(LIB_WAYS), cipher=not cipher))
+        x = rng.random()
+        if x < 0.35:
+            bad = rng.choice([r for r in range(n) if r != to])
+            down, up = rng.choice([("ro", "rw"), ("unmount", "mount")])
+            ops.append({"ev": "fault", "kind": down, "r": bad})
+            ops.append(upload(to, 1, "c1", rng.choice(["b", d]), name=name, mime=mime, pairs=pairs, ts=ts, gz=gz, via=via,
+                              cipher=cipher))
+            ops.append({"ev": "fault", "kind": up, "r": bad})
+        # the same file id once more: the same bytes the same way (a plain one finds the copies unchanged, an
+        # encrypted one never does), or by another way
+        w2 = {"via": via, "cipher": cipher} if rng.random() < 0.4 else rand_way(rng, 0.7, 0.5)
+        ops.append(upload(rng.randrange(n), 1, "c1", d if rng.random() < 0.7 else "b", name=name, mime=mime, pairs=pairs,
+                          ts=ts, gz=gz if w2["via"] != "mp" else False, **w2))
+        if rng.random() < 0.3:
+            ops.append(upload(rng.randrange(n), 1, "c1", rng.choice(["L", "a", "B"]), name=name, mime=mime, pairs=pairs, ts=ts,
+                              gz=gz, via="ereader", cipher=cipher))
+        if rng.random() < 0.5:
+            ops.append({"ev": "delete", "to": rng.randrange(n), "k": rng.choice([1, 2]), "c": "c1"})
         out.append((n, rng.choice(REPL[n]), "", ops))
     return out
 
@@ -189,10 +256,10 @@ def run(ctx):
     # 1. layer B (ReplicatedWrite / ReplicatedDelete with a location cache, per-replica transient failures, read-only /
     #    unmounted / deleted copies) refines layer A modulo the listed deviations; Agreement = the statement on the model
     runs = [
-        ("MC_C40_n2", base_consts(MaxOps=4 if th else 3), None),
+        ("MC_C40_n2", base_consts(MaxOps=6 if th else 4), None),
         # without empty payloads and metadata rewrites no deviation of the C01 family is needed
         ("MC_C40_strict", base_consts(BKF={"C40-forwarder-skips-copies"}, Datas={"a", "b"}, MetaSet={"m1"},
-                                      MaxOps=4 if th else 3), None),
+                                      MaxOps=6 if th else 4), None),
         # the model of the code before the fix (replicate request acknowledged by a server without the volume)
         # violates the statement: the invariant is able to see it
         ("MC_C40_ackmissing", base_consts(AckMissing=True), "Agreement"),
@@ -207,11 +274,29 @@ def run(ctx):
         ("MC_C40_race_strict", base_consts(WithRace=True, Datas={"a", "b"}, MetaSet={"m1"}, WithTransient=False,
                                            Faults=set(), MaxOps=2, BKF=set()), "SnapsAdmitted"),
     ]
+    # the ways an upload enters: multipart as typed, operation.Upload / UploadData (sniffing, compressing or passing a
+    # compressed input on), the same encrypted (fresh key per upload, the client holds the keys its uploads returned)
+    all_ways = {"mp", "reader", "cipher"}
+    # (second in the queue: the longest runs start first)
+    runs.insert(1, ("MC_C40_ways", base_consts(Ways=all_ways, MetaSet={"m0", "m1", "m2"}, MaxOps=4 if th else 3), None))
+    runs += [
+        # seeded defects as model switches: the fan-out encrypts once more (every replica under a key of its own);
+        # the reader way drops the gzip flag of a compressed input (every copy holds the same undecodable bytes:
+        # only the promise about the content sees it, agreement does not)
+        ("MC_C40_reencrypt", base_consts(Ways={"cipher"}, ReEncrypt=True, Datas={"a"}, MetaSet={"m1"}, WithTransient=False,
+                                         Faults=set(), MaxOps=2), ["SnapsAdmitted", "Agreement"]),
+        ("MC_C40_gzlost", base_consts(Ways={"reader"}, DropGzFlag=True, Datas={"a"}, MetaSet={"m2"}, WithTransient=False,
+                                      Faults=set(), MaxOps=2), ["SnapsAdmitted", "Agreement"]),
+    ]
     if th:
-        runs.append(("MC_C40_n3", base_consts(N=3, MaxOps=3), None))
-        runs.append(("MC_C40_n3_k2", base_consts(N=3, Keys={1, 2}, Datas={"a"}, MetaSet={"m0"}, MaxOps=3,
+        runs.append(("MC_C40_n3", base_consts(N=3, MaxOps=4), None))
+        runs.append(("MC_C40_ways_n3", base_consts(N=3, Ways=all_ways, Datas={"a"}, MetaSet={"m0", "m2"}, MaxOps=3), None))
+        runs.append(("MC_C40_n3_k2", base_consts(N=3, Keys={1, 2}, Datas={"a"}, MetaSet={"m0"}, MaxOps=4,
                                                  BKF={"C40-forwarder-skips-copies"}), None))
         runs.append(("MC_C40_nocount", base_consts(NoCountCheck=True, WithTransient=False), "Agreement"))
+
+    if os.environ.get("VERIF_SKIP_MC"):     # development aid for mutant runs: generate, drive and judge only
+        runs = []
 
     def mc(item):
         name, cons, expect = item
@@ -223,27 +308,37 @@ def run(ctx):
     rng = random.Random(ctx.seed)
     scripts = []
     g2 = ctx.instance("G2_C40_n2", "ReplImpl", GEN_W, base_consts(MaxOps=4 if th else 3, WithTransient=False, WithRace=True,
-                                                                  Datas={"e", "a", "b"},
+                                                                  Datas={"e", "a", "b"}, Ways={"mp", "reader"} if th else {"mp"},
                                                                   MetaSet={"m0", "m1", "m2"} if th else {"m0", "m1"}))
     g3 = ctx.instance("G2_C40_n3", "ReplImpl", GEN_W, base_consts(N=3, MaxOps=3, WithTransient=False, Datas={"a", "e"},
                                                                   MetaSet={"m0", "m1"} if th else {"m1"}))
+    # one witness per (implementation state incl. the client's key, incoming operation) with every way
+    gw = ctx.instance("G2_C40_ways", "ReplImpl", GEN_W, base_consts(MaxOps=3, WithTransient=False, Datas={"a", "e"},
+                                                                    MetaSet={"m0", "m1", "m2"} if th else {"m0", "m2"},
+                                                                    Ways=all_ways))
     # model checking and generation run side by side (each TLC with 2 workers)
     with ThreadPoolExecutor(max_workers=4) as pool:
         f2 = pool.submit(ctx.generate, g2, workers=2, timeout=1200)
         f3 = pool.submit(ctx.generate, g3, workers=2, timeout=1200)
+        fw = pool.submit(ctx.generate, gw, workers=2, timeout=1200)
         list(pool.map(mc, runs))
-        h2, h3 = f2.result(), f3.result()
-    h2 = rng.sample(h2, min(len(h2), 1500 if th else 120))
-    h3 = rng.sample(h3, min(len(h3), 1000 if th else 80))
-    for h in h2:
-        scripts.append((2, rng.choice(REPL[2]), "", from_model(h)))
+        h2, h3, hw = f2.result(), f3.result(), fw.result()
+    hw = [h for h in hw if any(op.get("way", "mp") != "mp" for op in h)]
+    h2 = rng.sample(h2, min(len(h2), 1500 if th else 100))
+    h3 = rng.sample(h3, min(len(h3), 1000 if th else 70))
+    hw = rng.sample(hw, min(len(hw), 600 if th else 50))
+    for h in h2 + hw:
+        scripts.append((2, rng.choice(REPL[2]), "", from_model(h, rng)))
     for h in h3:
-        scripts.append((3, rng.choice(REPL[3]), "", from_model(h)))
-    scripts += random_hists(rng, 1000 if th else 120, 12)
+        scripts.append((3, rng.choice(REPL[3]), "", from_model(h, rng)))
+    scripts += random_hists(rng, 1000 if th else 110, 12)
     scripts += retry_patterns(rng, 400 if th else 40)
     scripts += gzip_looking(rng, 32 if th else 12)
-    ctx.notes["generated"] = {"witness_n2": len(h2), "witness_n3": len(h3), "random": 1000 if th else 120,
-                              "retry_patterns": 400 if th else 40, "gzip_looking": 32 if th else 12}
+    scripts += entry_ways(rng, 156 if th else 40)
+    ctx.notes["generated"] = {"witness_n2": len(h2), "witness_n3": len(h3), "witness_ways": len(hw),
+                              "random": 1000 if th else 110,
+                              "retry_patterns": 400 if th else 40, "gzip_looking": 32 if th else 12,
+                              "entry_ways": 156 if th else 40}
 
     script = os.path.join(ctx.out, "script.ndjson")
     if ctx.replay:
@@ -264,7 +359,11 @@ def run(ctx):
                 "mark read-only/writable, unmount, mount, delete a copy) + seeded random executions of length 12 over 10 "
                 "payloads (text, json, html, png, binary, gzip-looking, 3 KiB, empty) x 9 names x 8 mimes x pairs x ts x ttl "
                 "x client-gzipped x fsync on volumes with replication 001/010/100/002/011/110/200 + retry patterns (a replica is "
-                "read-only / unmounted while X is uploaded, recovers, X is uploaded again); after every operation "
+                "read-only / unmounted while X is uploaded, recovers, X is uploaded again) + entry ways (the same file id "
+                "through operation.Upload with a plain reader / a BytesReader and operation.UploadData, plain or encrypted, "
+                "input as it is or already gzipped, names / mimes / payloads for which the client library compresses or "
+                "does not, then overwritten through another way, now and then with a failing replica, and deleted); every "
+                "upload of the random, retry and witness executions enters by one of these ways too; after every operation "
                 "every copy's needle (store level) and HTTP view is recorded for every key; non-trivial = at least one "
                 "operation reported successful; distinct by hash of the recorded execution")
     ctx.exhaustive = False
@@ -277,4 +376,9 @@ def run(ctx):
         "payloads and metadata come from a token table; decoded content equality is byte equality decided by the "
         "driver's token lookup (hash for unknown content); last-modified times are compared between replicas as "
         "recorded (seconds)",
+        "an encrypted needle is decoded by the driver with the keys the upload results of that file id carried in "
+        "this execution (AES-GCM: a key either opens the stored bytes or it does not); the observation names the key, "
+        "the specification demands the one this upload returned, the uploaded bytes and one ciphertext on all replicas",
+        "on a volume with a ttl of its own the random executions use no client timestamp from 2020: a copy whose "
+        "newest needle is older than the volume's ttl is an expired volume, which its server deletes within a second",
     ]
